@@ -123,16 +123,16 @@ class Locals(object):
                                 self._bind.setdefault(e.id, []).append(st)
                                 self._value[(id(st), e.id)] = v
         # locals bound only by plain ``x = <expr>`` statements (possibly several: one per branch / handler)
+        self.counts = counts
         self.defs = dict((k, v) for k, v in self._bind.items() if counts.get(k) == len(v) and k not in self.params)
         self.single = dict((k, v[0]) for k, v in self.defs.items() if len(v) == 1)
 
     # -- one step ------------------------------------------------------------------------------------------
-    def def_at(self, name, nodes):
-        """The one binding statement of local ``name`` whose value is what ``name`` stands for at all of the CFG
-        ``nodes``: it is the only binding reaching them, ``name`` is bound on every path, and nothing in between
-        changes what the bound expression denotes.  None otherwise."""
+    def reaching(self, name, nodes):
+        """The one binding statement of local ``name`` that reaches all of the CFG ``nodes`` (``name`` bound on every path
+        to them), else None."""
         sts = self.defs.get(name)
-        if not sts or name in self.keep:
+        if not sts:
             return None
         cfg = self.cfg
         all_ids = cfg.nodes_of_all(sts)
@@ -146,15 +146,68 @@ class Locals(object):
             if len(reaching) != 1 or (found is not None and reaching[0] is not found):
                 return None
             found = reaching[0]
-            val = self._value[(id(found), name)]
-            if isinstance(val, (ast.Lambda, ast.Yield, ast.YieldFrom, ast.Await, ast.NamedExpr)):
-                return None
-            ids = cfg.nodes_of(found)
-            after = [m for x in ids for m in cfg.succ[x]]
+        return found
+
+    def def_at(self, name, nodes):
+        """The one binding statement of local ``name`` whose value is what ``name`` stands for at all of the CFG
+        ``nodes``: it is the only binding reaching them, ``name`` is bound on every path, and nothing in between
+        changes what the bound expression denotes.  None otherwise."""
+        if name in self.keep:
+            return None
+        found = self.reaching(name, nodes)
+        if found is None:
+            return None
+        cfg = self.cfg
+        all_ids = cfg.nodes_of_all(self.defs[name])
+        val = self._value[(id(found), name)]
+        if isinstance(val, (ast.Lambda, ast.Yield, ast.YieldFrom, ast.Await, ast.NamedExpr)):
+            return None
+        ids = cfg.nodes_of(found)
+        after = [m for x in ids for m in cfg.succ[x]]
+        for n in nodes:
             mid = (cfg.reach(after, avoid=all_ids) & cfg.coreach([n], avoid=all_ids)) - {n}
             if self._killed(val, mid):
                 return None
         return found
+
+    def binding(self, name, stmt):
+        """(value expression, binding statement) of local ``name`` as used by ``stmt`` -- see def_at -- or None."""
+        d = self.def_at(name, [n for n in self.cfg.nodes_of(stmt) if self.cfg.reachable(n)])
+        return (self._value[(id(d), name)], d) if d is not None else None
+
+    def same(self, e1, s1, e2, s2):
+        """Do ``e1`` evaluated by statement ``s1`` and ``e2`` evaluated by ``s2`` denote the same value?  (Some unfolding of
+        the named temporaries makes them textually equal; every local left in that text has the same binding at both
+        points; nothing between the two points changes what the text denotes.)"""
+        cfg = self.cfg
+        n1 = [n for n in cfg.nodes_of(s1) if cfg.reachable(n)]
+        n2 = [n for n in cfg.nodes_of(s2) if cfg.reachable(n)]
+        if not n1 or not n2:
+            return False
+        forms1 = [self._res(copy.deepcopy(e1), n1, d, None, None) for d in range(6)]
+        forms2 = [self._res(copy.deepcopy(e2), n2, d, None, None) for d in range(6)]
+        done = set()
+        for t1 in forms1:
+            for t2 in forms2:
+                k = norm(t1)
+                if k != norm(t2) or k in done:
+                    continue
+                done.add(k)
+                if self._stable(t1, n1, n2):
+                    return True
+        return False
+
+    def _stable(self, t, n1, n2):
+        cfg = self.cfg
+        for name in set(x.id for x in ast.walk(t) if isinstance(x, ast.Name)):
+            if self.counts.get(name):
+                r1, r2 = self.reaching(name, n1), self.reaching(name, n2)
+                if r1 is None or r1 is not r2:
+                    return False
+        s1 = [m for x in n1 for m in cfg.succ[x]]
+        s2 = [m for x in n2 for m in cfg.succ[x]]
+        mid = ((cfg.reach(s1) & cfg.coreach(n2)) | (cfg.reach(s2) & cfg.coreach(n1))) - set(n1) - set(n2)
+        return not self._killed(t, mid)
 
     def value_at(self, name, nodes):
         """The expression local ``name`` stands for at all of the CFG ``nodes`` (or None)."""
